@@ -27,6 +27,19 @@ def load_attr(eng, obj, name, st, line=0):
         if name == "__class__" and obj.pycls is not None:
             yield st, obj.pycls
             return
+        if name in ("with_traceback",):
+            yield st, Model("BaseException.with_traceback", lambda e, s, a, k, obj=obj: iter([(s, obj)]))
+            return
+        if name == "__traceback__":
+            yield st, None
+            return
+        if name in ("message", "msg") and obj.args:
+            yield st, obj.args[0]
+            return
+        if not name.startswith("__"):
+            # any other data attribute of an exception object: an opaque value
+            yield st, SV(V.fresh_val("exc_" + name))
+            return
         raise Unsupported(f"attribute {name} of exception value")
     from .engine import SuperProxy
 
